@@ -293,8 +293,8 @@ def plan(ctx, cases, workers=8):
     os.remove(path)
     out = {}
     for v in r.prints:
-        if isinstance(v, tuple) and len(v) == 6 and v[0] == "P":
-            out[v[1]] = {"lt": list(v[2]), "cls": list(v[3]), "descr": [tuple(d) for d in v[4]], "anti": list(v[5])}
+        if isinstance(v, tuple) and len(v) == 8 and v[0] == "P":
+            out[v[1]] = {"lt": list(v[2]), "cls": list(v[3]), "descr": [tuple(d) for d in v[4]], "anti": list(v[5]), "radii": [dict(x) for x in v[6]], "zero": sorted(v[7])}
     if len(out) != len(cases):
         raise Machinery("plan: %d of %d cases came back" % (len(out), len(cases)))
     return out
